@@ -174,6 +174,14 @@ fn walker_builder(
     for root in directories.iter().skip(1) {
         walker_builder.add(root);
     }
+    // Verification hook: choose the number of walker threads. Inert unless the variable is set.
+    #[cfg(feature = "verif-hooks")]
+    if let Some(n) = std::env::var("TYPESHARE_VERIF_THREADS")
+        .ok()
+        .and_then(|n| n.parse::<usize>().ok())
+    {
+        walker_builder.threads(n);
+    }
     Ok(walker_builder)
 }
 
